@@ -18,10 +18,20 @@ Theorem C18_fields : forall L target c ti g i,
 Proof. exact fields_mirror. Qed.
 Print Assumptions C18_fields.
 
+(* NOTE on the two theorems that follow (audit C1).  [apply_replace] is the model's own field loop and [type_lit] the
+   model's own reading of Dumper.TypeLit, so C18_field_unreplaced / C18_field_replaced UNFOLD the model: they say which
+   branch the model takes (no replace tag: name and tag untouched, type through [type_lit]; replace tag: the words of the
+   tag), i.e. they are definitional IN the model and document it.  What is not definitional is (a) that [type_lit]'s
+   expression denotes the origin's type — C18_types below, a theorem by induction, instantiated in C18_witness_types —,
+   (b) that [type_lit] is C11's model of the dumper on the common domain — C18_type_lit_is_c11 —, and (c) that the model
+   is the code: the harness compares, per run, the field list of the generated struct (names, type texts, tags) with
+   [g_fields] (Corr/C18.v mismatches) and, in a compiled program, the reflect.Type of every generated field with the
+   origin's (c18/run.go reflectViolations). *)
+
 (* a field without a replace tag keeps its name, its type (as Dumper.TypeLit renders it) and its tag, byte for byte *)
 Theorem C18_field_unreplaced : forall L target c repl f,
     lookup (f_name f) repl = None ->
-    apply_replace L target c repl f = mk_gfield (f_name f) (fst (type_lit L target c (f_ty f))) (f_tag f).
+    apply_replace L target c repl f = mk_gfield (f_name f) (fst (field_type_lit L target c (f_ty f))) (f_tag f).
 Proof. exact apply_replace_unreplaced. Qed.
 Print Assumptions C18_field_unreplaced.
 
@@ -47,6 +57,65 @@ Theorem C18_types : forall L target c imps,
 Proof. exact type_lit_denotes. Qed.
 Print Assumptions C18_types.
 
+(* the same for the expression a FIELD's type is rendered as (snippet.ID(f.Type())): a type that is an alias is printed by
+   the alias's own name, which denotes it; an alias below the top level is printed through its right-hand side (the
+   C18_types clause above: an alias and its right-hand side are the same type).  That the expanded spelling can be
+   WRITTEN in the target package (no type of an `internal` package, no unexported name) is Go's visibility rule, not part
+   of this model: it is observed by compiling (known finding nested_alias_of_unnameable_type) *)
+Theorem C18_field_types : forall L target c imps,
+    (forall p n, In (p, n) imps -> n = L p) ->
+    NoDup (map snd imps) ->
+    forall t,
+      (fx_errlit c = true \/ no_error t = true) ->
+      fhas_iface_lit t = false ->
+      fimported L target imps t ->
+      denotes imps target (fst (field_type_lit L target c t)) t = true.
+Proof. exact field_type_lit_denotes. Qed.
+Print Assumptions C18_field_types.
+
+Theorem C18_field_type_imports : forall L target c t,
+    snd (field_type_lit L target c t) = filter (fun p => negb (bytes_eqb p target)) (fty_pkgs t).
+Proof. exact field_type_lit_imports. Qed.
+Print Assumptions C18_field_type_imports.
+
+(* a field typed by an alias of anything but a named type is assigned, replaced or not: createFieldSnippet has no case
+   for *types.Alias (an alias of a named type is treated as that named type: C18_copy_foreign_named, C18_copy_replaced_named) *)
+Theorem C18_copy_alias_field : forall L target c b f p n r,
+    f_ty f = TAlias p n r ->
+    (forall pkg name u ms, unalias r <> TNamed pkg name u ms) -> unalias r <> TError ->
+    field_stmt L target c b f = GOk (SAssign (f_name f)) [].
+Proof. exact alias_field_assigned. Qed.
+Print Assumptions C18_copy_alias_field.
+
+(* before the repair fixes/C18-replace-on-alias-field.diff no alias was looked through: a replaced field typed by an alias of
+   a named struct was assigned (`out.A = in.A` with the replacement's type on the right: does not compile) *)
+Theorem C18_copy_replaced_alias_refuted_before_fix : forall L target c f p n r,
+    f_ty f = TAlias p n r ->
+    field_stmt_gen L target c false true f = GOk (SAssign (f_name f)) [].
+Proof. exact replaced_alias_refuted_before_fix. Qed.
+Print Assumptions C18_copy_replaced_alias_refuted_before_fix.
+
+(* non-vacuity: `Items origin.Items` with `type Items = []hid.Item` (hid below origin/internal) keeps the alias name and is
+   assigned; `Spec origin.InnerA` (alias of a struct) under a replace tag is converted by the replacement's DeepCopyIntoAs;
+   below the top level (`[]origin.Item`, `type Item = hid.Item`) the right-hand side is printed - the same type *)
+Example C18_example_alias_fields :
+  let hid := bs "example.com/m/origin/internal/hid" in
+  let items := TAlias w_origin (bs "Items") (TSlice (TNamed hid (bs "Item") UStruct [])) in
+  let item := TAlias w_origin (bs "Item") (TNamed hid (bs "Item") UStruct []) in
+  let innera := TAlias w_origin (bs "InnerA") (TNamed w_origin (bs "Inner") UStruct []) in
+  let imps := [(w_origin, bs "origin"); (hid, bs "hid")] in
+  field_type_lit last_segment w_target all_fixed items = (OSel (bs "origin") (bs "Items"), [w_origin]) /\
+  field_stmt last_segment w_target all_fixed false (mk_field (bs "Items") items []) = GOk (SAssign (bs "Items")) [] /\
+  field_stmt last_segment w_target all_fixed true (mk_field (bs "Spec") innera [])
+    = GOk (SCallInto (bs "Spec") dc_into_name) [] /\
+  field_stmt_gen last_segment w_target all_fixed false true (mk_field (bs "Spec") innera []) = GOk (SAssign (bs "Spec")) [] /\
+  field_type_lit last_segment w_target all_fixed (TSlice item) = (OSlice (OSel (bs "hid") (bs "Item")), [hid]) /\
+  denotes imps w_target (OSel (bs "origin") (bs "Items")) items = true /\
+  denotes imps w_target (OSlice (OSel (bs "hid") (bs "Item"))) items = true /\
+  denotes imps w_target (OSlice (OSel (bs "hid") (bs "Item"))) (TSlice item) = true /\
+  denotes imps w_target (OSlice (OSel (bs "origin") (bs "Item"))) (TSlice item) = true.
+Proof. cbv zeta. repeat split; vm_compute; reflexivity. Qed.
+
 (* known finding unnamed_method_interface_rendered_any: the guard above is needed *)
 Theorem C18_types_refuted_method_interface : forall L target c imps txt,
     denotes imps target (fst (type_lit L target c (TIfaceLit txt))) (TIfaceLit txt) = false.
@@ -69,6 +138,19 @@ Theorem C18_generates : forall L target c ti fs o,
     exists g i, generate_type L target c ti = TGen g i.
 Proof. exact generate_total. Qed.
 Print Assumptions C18_generates.
+
+(* NOTE on C18_copy (audit C1).  It is stated on the SIMPLE value model of Model/GenPartialStruct.v, in which
+   (i) [deep_copy_as _ _ None := Some None] — nil gives nil by definition of the model (definitional in the model; the
+   generated nil guard is checked per run by the harness, which calls DeepCopyAs on a nil receiver: c18/run.go "DeepCopyAs
+   on nil does not return nil"; the statement-wise version, where the guard is a statement that is executed, is the first
+   conjunct of C18_copy_unshared below), and
+   (ii) [copy_container v := v] — make+copy / make+range are the identity on VALUES: this model has no addresses, so
+   C18_copy says WHICH fields receive WHAT (omitted: zero; retained: the source value, converted exactly for call
+   statements) and nothing about freshness.  Freshness / no sharing of the copied slices and maps is C18_copy_unshared
+   (C17's heap model: copy_slice_cell / copy_map_cell allocate), instantiated in C18_witness_copy_unshared; on the real
+   code C18's harness runs DeepCopyAs on filled values and compares retained / omitted / replaced fields (c18/run.go
+   reflectViolations); mutation of the copy's containers is tested on the shared copy helper by C17's harness only
+   (c17/prog.go mutate). *)
 
 (* ---- DeepCopyAs: nil gives nil; otherwise omitted fields are zero and every retained field receives the source
         value — converted by [conv] exactly when the statement selected for it is a method call ---- *)
@@ -94,14 +176,14 @@ Print Assumptions C18_copy.
    error types … *)
 Theorem C18_copy_unreplaced_plain : forall L target c f s j,
     field_stmt L target c false f = GOk s j ->
-    (forall pkg name u ms, f_ty f <> TNamed pkg name u ms) ->
+    (forall pkg name u ms, unalias (f_ty f) <> TNamed pkg name u ms) ->
     is_call s = false.
 Proof. exact unreplaced_not_call. Qed.
 Print Assumptions C18_copy_unreplaced_plain.
 
 (* … none for foreign named types that have no DeepCopyAs / DeepCopyIntoAs method (time.Duration, time.Time, …) … *)
 Theorem C18_copy_foreign_named : forall L target c f pkg name u ms s j,
-    f_ty f = TNamed pkg name u ms ->
+    unalias (f_ty f) = TNamed pkg name u ms ->
     bytes_eqb pkg target = false ->
     no_as_methods ms = true ->
     field_stmt L target c false f = GOk s j ->
@@ -111,7 +193,7 @@ Print Assumptions C18_copy_foreign_named.
 
 (* … and a replaced field of a named type is converted by the replacement's DeepCopyIntoAs *)
 Theorem C18_copy_replaced_named : forall L target c f pkg name u ms s j,
-    f_ty f = TNamed pkg name u ms ->
+    unalias (f_ty f) = TNamed pkg name u ms ->      (* a named type, or an alias of one *)
     field_stmt L target c true f = GOk s j ->
     s = SCallInto (f_name f) dc_into_name.
 Proof. exact replaced_named_into. Qed.
@@ -275,13 +357,18 @@ Theorem Copy_c17_is_c18_field_stmt : forall L target c, fx_errnil c = true ->
 Proof. exact field_stmt_agree. Qed.
 Print Assumptions Copy_c17_is_c18_field_stmt.
 
-(* outside the common domain the statement depends on the top-level constructor only (the Go type switch) *)
-Theorem Copy_outside_common_domain : forall L target c f b,
+(* outside the common domain the statement depends on the top-level constructor only (the Go type switch); alias types
+   are not part of C17's model at all (C18_copy_alias_field, C18_copy_foreign_named, C18_copy_replaced_named say what is
+   selected for them); the guard of the predeclared error's nil package is only needed for an alias of error *)
+Theorem Copy_outside_common_domain : forall L target c,
+    fx_errnil c = true ->
+    forall f b,
     fty17 L target c (f_ty f) = None ->
     exists s i, field_stmt L target c b f = GOk s i /\
       match f_ty f with
       | TSlice _ => exists o, s = SCopySlice (f_name f) o
       | TMap _ _ => exists o, s = SCopyMap (f_name f) o
+      | TAlias _ _ _ => True
       | _ => s = SAssign (f_name f)
       end.
 Proof. exact outside_domain_stmt. Qed.
@@ -321,7 +408,10 @@ Print Assumptions C18_stmts_are_c17_fields_copy.
    method the body calls ([rec]: the replacement's or a same-package type's DeepCopyIntoAs; [ms]: the methods that
    exist) copies faithfully ([rec_spec], the assumption C18's conv_for made informally).  Then for every well-typed
    value: the result is deeply equal, every slice / map cell reachable from it is fresh, and no write through any of
-   them changes the source.  Scope = C17's heap model: cells hold scalars; named non-struct types are scalars. *)
+   them changes the source.  Scope = C17's heap model: cells hold scalars; named non-struct types are scalars.
+   nil -> nil (first conjunct): [deep_copy_as_heap] executes the statement list of DeepCopyAs ([as_body]: nil guard;
+   out := new(Origin); in.DeepCopyIntoAs(out); return out — partialstruct.go:110-117) with C17's [run_ptr_copy]; the
+   conjunct holds because the first statement is the guard (without it: Props/C17.v C17_nil_needs_the_guard). *)
 Theorem C18_copy_unshared : forall L target c, fx_errnil c = true ->
   forall ti g i fs G ms rec bound cfs d tp,
     generate_type L target c ti = TGen g i ->
@@ -465,3 +555,86 @@ Example C18_example_type_lit_is_c11 :
              = Ok (GT.ast18 (OMap (OIdent (bs "string")) (OSel (bs "origin") (bs "Inner"))), e')
              /\ Gengo.Model.TypeLit.local_name_of (bs "example.com/m/origin") e' = bs "origin".
 Proof. exact Gengo.Proofs.GeneratorsTypes.type_lit_agree_example. Qed.
+
+(* ================================================================================================================
+   Non-vacuity of C18_types and C18_copy_unshared (Proofs/GeneratorsWitness.v).
+   ================================================================================================================ *)
+Require Import Gengo.Proofs.GeneratorsWitness.
+
+(* C18_types.  Origin T (package example.com/m/origin) with twelve fields: A int, B []int (omitted), S []string,
+   M map[string]lib.Code, C map[string][]*origin.Inner, D time.Duration, P *time.Time, R [4]lib.Code, I origin.Inner
+   (replaced by Y), E error, G any, N LIface (target package).  Import block of the generated file: origin, time, lib
+   under their last segments.  The hypotheses hold of every field type, and the theorem gives that every rendered type
+   expression denotes the origin's type; [wt_generated]: what was generated. *)
+Example C18_witness_types_hypotheses :
+  ((forall p n, In (p, n) wt_imps -> n = last_segment p) /\ NoDup (map snd wt_imps)) /\
+  (forall f, In f wt_fields ->
+     (fx_errlit all_fixed = true \/ no_error (f_ty f) = true) /\ has_iface_lit (f_ty f) = false /\
+     imported last_segment w_target wt_imps (f_ty f)) /\
+  generate_type last_segment w_target all_fixed wt_ti =
+    TGen wt_g [wt_lib; w_origin; wt_time; wt_time; wt_lib; w_origin; wt_lib; w_origin].
+Proof. exact (conj wt_imps_ok (conj wt_types_hyps wt_generated)). Qed.
+
+Example C18_witness_types : forall f, In f wt_fields ->
+  denotes wt_imps w_target (fst (type_lit last_segment w_target all_fixed (f_ty f))) (f_ty f) = true.
+Proof.
+  exact (fun f Hin =>
+    C18_types last_segment w_target all_fixed wt_imps (proj1 wt_imps_ok) (proj2 wt_imps_ok) (f_ty f)
+      (proj1 (wt_types_hyps f Hin)) (proj1 (proj2 (wt_types_hyps f Hin))) (proj2 (proj2 (wt_types_hyps f Hin)))).
+Qed.
+
+(* ... and, computed on the generated struct: every field but the omitted B is there, and the type expression of every
+   field but the replaced I denotes the origin field's type *)
+Example C18_witness_types_generated :
+  forallb (fun f => match find (fun gf => bytes_eqb (gf_name gf) (f_name f)) (g_fields wt_g) with
+                    | Some gf => bytes_eqb (f_name f) (bs "I") || denotes wt_imps w_target (gf_ty gf) (f_ty f)
+                    | None => bytes_eqb (f_name f) (bs "B")
+                    end) wt_fields = true.
+Proof. exact wt_generated_fields_denote. Qed.
+
+(* C18_copy_unshared with CONCRETE [rec_spec] and [callees_as_ok].  Origin with eight fields inside the common domain:
+   A int, B []int (omitted), S []string, M map[string]lib.Code, D time.Duration, I origin.Inner (replaced by Y), E error,
+   N LIface.  [wh_G]: the generated struct X, the replacement type Y = struct{ P []int; Q int; K map[string]int }, the
+   interface LIface.  [wh_ms]: the one method the body calls — Y's DeepCopyIntoAs, with the body the copy helper gives
+   for Y's fields — EXECUTED by C17's [exec_into] (so [rec_spec] is a theorem about it, not an assumption). *)
+Example C18_witness_copy_unshared_hypotheses :
+  (generate_type last_segment w_target all_fixed wh_ti = TGen wh_g [wt_lib; wt_time; w_origin; wt_lib] /\
+   fields17 last_segment w_target all_fixed wh_repl (filter (keep (ti_omit wh_ti)) wh_fields) = Some wh_cfs /\
+   DC.lookup wh_G (g_name wh_g) = Some (DC.mk_decl (bs "X") (DC.DStruct [] wh_cfs) false None [])) /\
+  (forall f, In f wh_fields -> keep (ti_omit wh_ti) f = true -> agrees_field w_target wh_G wh_repl f) /\
+  Gengo.Proofs.DeepCopySem.dom wh_G /\
+  (forall fuel, Gengo.Proofs.DeepCopySem.rec_spec wh_G wh_ms (DC.exec_into fuel wh_G wh_ms) fuel) /\
+  callees_as_ok wh_G wh_ms wh_cfs /\
+  (Gengo.Proofs.DeepCopySem.wt_fields wh_G wh_heap wh_cfs wh_fin /\ Gengo.Proofs.DeepCopySem.depth_fields wh_fin < 3).
+Proof. exact (conj wh_generated (conj wh_agrees (conj wh_dom (conj wh_rec_spec (conj wh_callees_as_ok wh_fin_typed))))). Qed.
+
+Example C18_witness_copy_unshared : forall fuel h,
+  deep_copy_as_heap (DC.exec_into fuel wh_G wh_ms) wh_G wh_ms wh_g None h = Ok (None, h) /\
+  forall fin, Gengo.Proofs.DeepCopySem.wt_fields wh_G h wh_cfs fin -> Gengo.Proofs.DeepCopySem.depth_fields fin < fuel ->
+    exists fout t,
+      deep_copy_as_heap (DC.exec_into fuel wh_G wh_ms) wh_G wh_ms wh_g (Some fin) h = Ok (Some (DC.VStruct fout), h ++ t) /\
+      DC.snapshot (h ++ t) (DC.VStruct fout) = DC.snapshot h (DC.VStruct fin) /\
+      (forall a, In a (DC.locs (DC.VStruct fout)) -> List.length h <= a < List.length (h ++ t)) /\
+      (forall a cell, In a (DC.locs (DC.VStruct fout)) ->
+         DC.snapshot (DC.write (h ++ t) a cell) (DC.VStruct fin) = DC.snapshot h (DC.VStruct fin)).
+Proof.
+  exact (fun fuel =>
+    C18_copy_unshared last_segment w_target all_fixed eq_refl wh_ti wh_g _ wh_fields wh_G wh_ms
+      (DC.exec_into fuel wh_G wh_ms) fuel wh_cfs _ []
+      (proj1 wh_generated) eq_refl (proj1 (proj2 wh_generated)) wh_agrees wh_dom
+      (proj2 (proj2 wh_generated)) eq_refl (wh_rec_spec fuel) wh_callees_as_ok).
+Qed.
+
+(* computed on a value with a filled slice and map in X and a filled slice and map inside the replaced struct: nil gives
+   nil; four fresh cells, two of them made by Y's method; a write through the copy's inner map leaves the original alone —
+   the same write through the ORIGINAL's cell does not (the conclusion is not trivially true) *)
+Example C18_witness_copy_unshared_computed :
+  deep_copy_as_heap (DC.exec_into 3 wh_G wh_ms) wh_G wh_ms wh_g None wh_heap = Ok (None, wh_heap) /\
+  match deep_copy_as_heap (DC.exec_into 3 wh_G wh_ms) wh_G wh_ms wh_g (Some wh_fin) wh_heap with
+  | Ok (Some v', h') =>
+      DC.snapshot h' v' = DC.snapshot wh_heap (DC.VStruct wh_fin) /\ DC.locs v' = [4; 5; 6; 7] /\ List.length h' = 8 /\
+      DC.snapshot (DC.write h' 7 (DC.CMap [])) (DC.VStruct wh_fin) = DC.snapshot wh_heap (DC.VStruct wh_fin) /\
+      DC.snapshot (DC.write h' 3 (DC.CMap [])) (DC.VStruct wh_fin) <> DC.snapshot wh_heap (DC.VStruct wh_fin)
+  | _ => False
+  end.
+Proof. exact wh_computed. Qed.
